@@ -1,4 +1,5 @@
 import FsutilModel.Props.C02
+import FsutilModel.Lemmas.C05Vanish
 /-! # C05 — Change notifications mirror exactly what changed (listing level) -/
 namespace Fsm.C05
 open D
@@ -31,5 +32,23 @@ theorem every_change_notified (L U : List StatE)
     (∀ l ∈ L.map StatE.toEnt, l.path = e.path → same l e = false → Ev.modify e ∈ diffB false L U) :=
   ⟨fun h => (C02.adds_exactly_new false L U hL hU e).mpr ⟨he, h⟩,
    fun l hl hp hs => (C02.modifies_exactly_changed false L U hL hU e).mpr ⟨he, l, hl, hp, Or.inr hs⟩⟩
+
+/-- Every removal is notified: for every valid pair of listings, each path of the old listing that the new one
+does not have is covered by a notification that removes it — a delete of the path itself or of a directory
+above it, or an add/modify that replaces an entry above it (a directory that became a file or link). -/
+theorem every_removal_notified (none : Bool) (L U : List StatE)
+    (hL : Valid byteOrd (L.map StatE.toEnt)) (hU : Valid byteOrd (U.map StatE.toEnt)) (l : BEnt)
+    (hl : l ∈ L.map StatE.toEnt) (hu : ∀ u ∈ U.map StatE.toEnt, u.path ≠ l.path) :
+    ∃ ev ∈ diffB none L U, Removes byteOrd ev l.path := by
+  have hconv := C02.diff_converges none L U hL hU l.path
+  have hU0 : toMap (U.map StatE.toEnt) l.path = Option.none := by
+    simp only [toMap, List.find?_eq_none]
+    intro u hu'; simpa using hu u hu'
+  have hL0 : toMap (L.map StatE.toEnt) l.path ≠ Option.none := by
+    simp only [toMap, ne_eq, List.find?_eq_none]
+    intro hall
+    exact hall l hl (by simp)
+  rw [hU0] at hconv
+  exact vanish_cause byteOrd _ _ l.path hL0 hconv
 
 end Fsm.C05
